@@ -40,6 +40,11 @@ struct HbShared {
     /// relaxed flags: they create no happens-before edge of their own
     finished: AtomicBool,
     completed: AtomicBool,
+    /// wind-down scenario: the final poll has begun / the cancellation has returned / the
+    /// Runnable of the final poll has returned (all relaxed)
+    at_final: AtomicBool,
+    cancel_done: AtomicBool,
+    wound_down: AtomicBool,
     fut_drops: AtomicU64,
     out_drops: AtomicU64,
     cross_thread_polls: AtomicU64,
@@ -92,6 +97,7 @@ struct HbFut {
     data: Box<[u64; 4]>,
     last_thread: u64,
     ready_yields: u8,
+    wind_down: bool,
 }
 
 impl Drop for HbFut {
@@ -135,6 +141,17 @@ impl Future for HbFut {
             for _ in 0..self.ready_yields {
                 std::thread::yield_now();
             }
+            if self.wind_down {
+                // the task is cancelled while this poll - the one that returns Ready - is in
+                // progress: the Runnable must then drop the output itself (wind-down)
+                sh.at_final.store(true, Ordering::Relaxed);
+                for _ in 0..200_000 {
+                    if sh.cancel_done.load(Ordering::Relaxed) {
+                        break;
+                    }
+                    std::thread::yield_now();
+                }
+            }
             sh.completed.store(true, Ordering::Relaxed);
             sh.finished.store(true, Ordering::Relaxed);
             return Poll::Ready(HbOut {
@@ -176,6 +193,11 @@ pub(crate) struct HbCase {
     /// the promise thread drops the promise after this many yields instead of polling it
     #[serde(default)]
     pub promise_drop_after: Option<u8>,
+    /// scripted scenario: the cancellation is issued from another thread exactly while the
+    /// poll that returns Ready is in progress, and threads that hold a waker release it only
+    /// after the Runnable of that poll has returned
+    #[serde(default)]
+    pub wind_down: bool,
 }
 
 pub(crate) struct TaskHbSub;
@@ -209,16 +231,20 @@ impl SubCheck for TaskHbSub {
             prop_oneof![2 => Just(None), 1 => (0u8..12).prop_map(Some)],
             0u8..4,
             prop_oneof![3 => Just(None), 1 => (0u8..12).prop_map(Some)],
+            prop_oneof![4 => Just(false), 1 => Just(true)],
         )
-            .prop_map(|(target, wakers, promise_thread, forget, drop_token_early, cancel_after, ready_yields, promise_drop_after)| HbCase {
+            .prop_map(|(target, wakers, promise_thread, forget, drop_token_early, cancel_after, ready_yields, promise_drop_after, wind_down)| HbCase {
                 target,
                 wakers,
                 promise_thread,
-                forget,
+                // (scripted scenario: no promise, so that a held waker can be the last reference)
+                forget: forget || wind_down,
                 drop_token_early,
-                cancel_after,
                 ready_yields,
                 promise_drop_after,
+                wind_down,
+                // (in the scripted scenario the cancellation is tied to the final poll)
+                cancel_after: if wind_down { Some(0) } else { cancel_after },
             })
             .boxed()
     }
@@ -228,6 +254,9 @@ impl SubCheck for TaskHbSub {
             waker_slot: StdMutex::new(None),
             finished: AtomicBool::new(false),
             completed: AtomicBool::new(false),
+            at_final: AtomicBool::new(false),
+            cancel_done: AtomicBool::new(false),
+            wound_down: AtomicBool::new(false),
             fut_drops: AtomicU64::new(0),
             out_drops: AtomicU64::new(0),
             cross_thread_polls: AtomicU64::new(0),
@@ -241,6 +270,7 @@ impl SubCheck for TaskHbSub {
             data: Box::new([0; 4]),
             last_thread: 0,
             ready_yields: c.ready_yields.min(4),
+            wind_down: c.wind_down,
         };
         let tag = HbTag(StdArc::as_ptr(&sh));
         let (promise, first, token): (Option<Promise<HbOut>>, Runnable, _) = if c.forget {
@@ -253,11 +283,24 @@ impl SubCheck for TaskHbSub {
         let mut token = Some(token);
         let canceller = c.cancel_after.map(|n| {
             let t = token.take().unwrap();
+            let (sh, wind_down) = (sh.clone(), c.wind_down);
             std::thread::spawn(move || {
-                for _ in 0..n {
-                    std::thread::yield_now();
+                if wind_down {
+                    // wait (relaxed: no edge) for the final poll to begin; give up when the task
+                    // ends otherwise
+                    for _ in 0..200_000 {
+                        if sh.at_final.load(Ordering::Relaxed) || sh.finished.load(Ordering::Relaxed) {
+                            break;
+                        }
+                        std::thread::yield_now();
+                    }
+                } else {
+                    for _ in 0..n {
+                        std::thread::yield_now();
+                    }
                 }
                 t.cancel();
+                sh.cancel_done.store(true, Ordering::Relaxed);
             })
         });
         if c.drop_token_early {
@@ -267,12 +310,18 @@ impl SubCheck for TaskHbSub {
         let mut hs = Vec::new();
         for (k, (delay, by_ref, hold)) in c.wakers.iter().cloned().enumerate() {
             let sh = sh.clone();
+            let wind_down = c.wind_down;
+            // in the scripted scenario every waking thread keeps its waker
+            let (by_ref, hold) = if wind_down { (true, true) } else { (by_ref, hold) };
             let mine = first.take();
             hs.push(std::thread::spawn(move || {
                 THREAD_NO.with(|t| t.set(k as u64 + 1));
                 if let Some(r) = mine {
                     r.run();
                     drain_local();
+                    if sh.completed.load(Ordering::Relaxed) {
+                        sh.wound_down.store(true, Ordering::Relaxed);
+                    }
                 }
                 let mut held: Option<Waker> = None;
                 for _ in 0..SPINS {
@@ -296,10 +345,24 @@ impl SubCheck for TaskHbSub {
                         }
                     }
                     // this thread runs what it has just scheduled, as a worker does
-                    drain_local();
+                    if drain_local() > 0 && sh.completed.load(Ordering::Relaxed) {
+                        sh.wound_down.store(true, Ordering::Relaxed);
+                    }
                     std::thread::yield_now();
                 }
-                drain_local();
+                if drain_local() > 0 && sh.completed.load(Ordering::Relaxed) {
+                    sh.wound_down.store(true, Ordering::Relaxed);
+                }
+                if wind_down && held.is_some() {
+                    // release the waker only after the Runnable of the final poll has returned
+                    // (relaxed flag: the release is ordered by the task's atomics alone)
+                    for _ in 0..200_000 {
+                        if sh.wound_down.load(Ordering::Relaxed) || !sh.completed.load(Ordering::Relaxed) && sh.fut_drops.load(Ordering::Relaxed) > 0 {
+                            break;
+                        }
+                        std::thread::yield_now();
+                    }
+                }
                 drop(held);
             }));
         }
@@ -429,6 +492,9 @@ impl SubCheck for TaskHbSub {
         }
         if c.promise_thread && !c.forget {
             cl.push("promise-polled-on-its-own-thread");
+        }
+        if c.wind_down && sh.completed.load(Ordering::Relaxed) {
+            cl.push("cancelled-during-the-poll-that-returned-ready");
         }
         if cancelled {
             cl.push(if sh.completed.load(Ordering::Relaxed) { "cancelled-but-completed" } else { "cancelled-before-completion" });
